@@ -16,18 +16,19 @@ def macStr (m : WireMac) : String :=
 def evalOpWire : Sx → Option String
   | .list [.atom "enc.cav", c] => do
     let c ← cav? c
-    some (hx (encCav c))
+    -- (an unregistered caveat that lost its body, at any depth, cannot be written: `MarshalMsgpack` fails)
+    some (if encodable c then hx (encCav c) else "err-encode")
   | .list [.atom "enc.cavs", .list cs] => do
     let cs ← cavs? cs
-    some (hx (encCavSet cs))
+    some (if cs.all encodable then hx (encCavSet cs) else "err-encode")
   | .list [.atom "dec.cavs", b] => do
     let b ← b.bytes?
-    match decodeCavs defaultFuel b with
+    match decodeCavsTopLevel defaultFuel b with
     | none => some "err"
     | some cs => some ("ok " ++ cavsStr cs)
   | .list [.atom "reenc.cavs", b] => do
     let b ← b.bytes?
-    match decodeCavs defaultFuel b with
+    match decodeCavsTopLevel defaultFuel b with
     | none => some "err"
     | some cs => if cs.all encodable then some ("ok " ++ hx (encCavSet cs)) else some "err-encode"
   | .list [.atom "dec.mac", b] => do
